@@ -409,6 +409,45 @@ def equal_group_orders(ctx):
         rec.outcome("equal-groups")
 
 
+def changed_annotation_check(ctx):
+    """An annotation object that was changed (definitions expanded / shrunk) answers like a fresh parse of its text."""
+    from hed.models.definition_dict import DefinitionDict
+    env = Env()
+    rec = ctx.rec
+    dd = DefinitionDict(["(Definition/MyDef, (Red, (Blue, Event)))", "(Definition/Vd/#, (Label/#, Sensory-event))"], env.schema)
+    texts = ["Def/MyDef, Clap", "(Def/MyDef, Blue), Def/Vd/abc", "(Def-expand/MyDef, (Red, (Blue, Event))), Clap",
+             "((Def-expand/Vd/abc, (Label/abc, Sensory-event))), Def/MyDef"]
+    queries = ["def", "def-expand", "{def-expand}", '"Def-expand/MyDef"', '"Def/MyDef"', "def-exp*", "def/my*", "red", "event",
+               "[def-expand && red]", "{def && clap}", "~def", "~def-expand", "informational-property", "label"]
+    for text in texts:
+        for hist in itertools.product(("expand", "shrink", "copy"), repeat=2):
+            hs = env.HedString(text, env.schema, dd)
+            try:
+                for op in hist:
+                    if op == "expand":
+                        hs.expand_defs()
+                    elif op == "shrink":
+                        hs.shrink_defs()
+                    else:
+                        hs = hs.copy()
+                fresh = env.HedString(str(hs), env.schema, dd)
+                for q in queries:
+                    rec.n("evaluations")
+                    rec.n("transitions", 2)
+                    rec.n("distinct_nontrivial")
+                    a, b = env.search(q, hs), env.search(q, fresh)
+                    if a != b:
+                        rec.violation("C15:changed-annotation-answers-unlike-a-fresh-parse-of-its-text", start=text,
+                                      history=list(hist), now=str(hs), query=q, got=a, fresh=b)
+                        raise StopIteration
+            except StopIteration:
+                pass
+            except Exception as e:
+                rec.violation("C15:search-raises:" + type(e).__name__, annotation=text, history=list(hist), error=repr(e)[:200])
+            rec.state(("changed", text, hist))
+        rec.outcome("changed-annotation")
+
+
 def service_check(ctx):
     """query_service interface agrees with per-handler search."""
     import pandas as pd
@@ -482,6 +521,7 @@ def run(ctx):
     ctx.parallel(worker_parser, plen, ctx.seed)
     service_check(ctx)
     equal_group_orders(ctx)
+    changed_annotation_check(ctx)
     ctx.rec.counts["states"] = len(ctx.rec.states)
 
 
